@@ -18,7 +18,7 @@ from pathlib import Path
 import common as C
 
 PROPERTIES = ["C10"]
-PROPS = ["Nstd.Future.Props"]
+PROPS = ["Nstd.Future.Props", "Nstd.Future.PropsSpawnFail", "Nstd.Future.PropsCall"]
 DRIVER = "drv_future"
 LEAN_TARGETS = PROPS + [DRIVER]
 MANIFEST = {
@@ -32,7 +32,11 @@ MANIFEST = {
                  "completion handshake (join after completion, result, flags, future destroyed only when unused) over all schedules of the full model; deadlock freedom (`no_stuck`) and the liveness clause `join_eventually` (every weakly fair run terminates with all joins returned and every call executed exactly once) of the repaired "
                  "full model; the repaired FastSignal never loses a set and the repaired "
                  "sleep/wake protocol has no lost wake-up for any number of consumers/suppliers (abstract protocol system); negation witnesses (kernel-checked schedules) that the "
-                 "ORIGINAL code deadlocks (defect D17 on the full model; D17 and the swallowed wake-up on the protocol).  Tie to the code on every run: the real thread pool "
+                 "ORIGINAL code deadlocks (defect D17 on the full model; D17 and the swallowed wake-up on the protocol).  Round 3 (PropsSpawnFail.lean, PropsCall.lean): failing creation of pool workers as an "
+                 "environment choice (XReach): every such state is a reachable state of the model in which the refused threads never run, hence exactly-once / arguments / join-after-completion / result / flags / record "
+                 "lifetime hold for all failure patterns; `join_eventually` is FALSE then (witness: join() sleeps forever with the job queued and no worker) and ~ThreadPool hangs on the leaked _threadCount (witness); "
+                 "`result_store_before_destroy` (when ~Future<A> destroys `result` no thread is at or before the result store of any call on that future), `args_as_at_start`, `restart_waits_for_previous_call`, "
+                 "`restart_arms_like_fresh`, `flags_after_join`.  Tie to the code on every run: the real thread pool "
                  "(private ThreadPool built with queue sizes 1/2/4/8 and thread limits by #including Future.cpp) is run under deviation-bounded exhaustive and random schedules; "
                  "the Lean model replays every scheduler step and must predict the same enabled set, operation, object, returned value and events; an independent Python "
                  "reference checks exactly-once, arguments, join-after-completion, result, flags after join, record freed once, no POSIX misuse, no deadlock on the "
@@ -43,6 +47,8 @@ MANIFEST = {
                  "theorems); usize wrap-around outside.  Nothing OPEN: `join_eventually` (every weakly fair run reaches a state where every thread has finished and every call was executed and freed exactly once), `fair_runs_terminate`, `progresses_wf`, `no_stuck`, `terminal_state_is_complete` are proved on the FULL model of the repaired code; the scheduler verdict, the exhaustive model exploration of small configurations and the random model walks are additional tests.  The model mirrors the REPAIRED code "
                  "(fixes/future/0001-0005, fixes/sync/0001); on the unrepaired tree the check reports the defects with concrete failing schedules."),
         "design_ref": "DESIGN.md 3/C10",
+        "round3_note": ("failing Thread::start: XReach is exact up to the join loop of ~ThreadPool (tail replayed by the driver, OPEN as a theorem); the repair of the _threadCount leak is proposed in docs/future.md, "
+                        "not applied (the model of the repaired failure path needs three more program counters = rebuild of the whole proof chain); Call.hpp arities other than Args2: tie only."),
     }
 }
 
@@ -609,7 +615,7 @@ def explore(ctx, exe, pool, repaired, stats, on_result):
         Scn([["s0:11:5", "j0", "s0:12:6", "j0"], ["s1:21:1", "j1"], ["s2:31:1", "j2", "s2:32:2"]], q=1, cf=6, tick=1100),
         Scn([["s0:11:5", "s1:12:7", "j0", "j1"], ["s3:21:6", "s4:22:1", "j3", "j4"]], q=4, cf=2, lazy=1),
     ]
-    nsf = 60 if quick else 600
+    nsf = 40 if quick else 600
     for scn in spawnfail:
         submit(scn, [("rand" if i % 2 else "rands", rng.randrange(1, 10 ** 9), 12000, ()) for i in range(nsf)] + [("np", 1, 6000, ()), ("nps", 1, 12000, ())])
     nstress = 400 if quick else 3000
@@ -685,8 +691,9 @@ ASSUMPTIONS = [
     "scheduling points of the implementation run are the atomic operations and POSIX calls (plain volatile reads happen together with the preceding scheduling point); the Lean theorems quantify over the finer interleaving of every single shared access",
     "simulated POSIX semantics of harness/future/sched.cpp = the model's: non-recursive mutex ownership, condition variable wait set with broadcast waking all current waiters and budgeted spurious wake-ups, thread create/join/exit, virtual monotone clock",
     "each Future object is used by one client thread (the class is not thread-safe for concurrent clients of one object); started functions terminate and do not wait on other futures",
-    "thread creation succeeds (the failing Thread::start branch of the spawn path, which leaves _threadCount incremented without a worker, is not modelled; with it the shutdown side of the liveness theorems would be false); allocation succeeds",
-    "Call.hpp is abstracted: a call record is two integer arguments and a fixed body a*100+b (argument passing / return value are true by construction in the model; the Args templates are exercised by the correspondence run only)",
+    "LIVENESS theorems (no_stuck, join_eventually, terminate_jobs_balance ...) assume that thread creation succeeds; with a failing Thread::start (environment choice of the extended system XReach, SpawnFail.lean, run on the real code with request option cf) the SAFETY theorems still hold (PropsSpawnFail.lean) and the liveness clause is false (kernel-checked witnesses: join() never returns when no worker can be created; ~ThreadPool waits forever because _threadCount is not decremented when the start fails); allocation succeeds",
+    "Call.hpp is abstracted: a call record is two integer arguments and a fixed body a*100+b (Args2); the other arities (Args0..5, Member Args0..4) with by-value capture are run on the real code by the harness request `arity` (tie only)",
+    "the result object of Future<A> is a tracked non-trivial type in the harness (store into / read of a destroyed instance is a violation); in the model its lifetime is the program counter destroyF (theorem result_store_before_destroy)",
     "liveness under weak fairness is not decided by schedules of bounded length: the scheduler verdict is deadlock (no enabled thread) or step bound; usize ticket wrap-around at 2^64 is outside the model",
 ]
 
@@ -750,6 +757,7 @@ def check(ctx):
             c0, sc0, n0 = walk_cfgs(True)[0]
             wf.append(pool.submit(walk_one, (c0, sc0, n0, ctx.seed, 0, DRV)))
             explore(ctx, exe, pool, repaired, stats, on_result)
+            arity_stream(ctx, exe, stats)
             xres = [f.result() for f in xf]
             wres = [f.result() for f in wf]
     except Exception:
@@ -797,6 +805,7 @@ def report(ctx, exe, repaired, stats, found, diffs, distinct, samples, xres, wre
                               "unreached": sorted(p for p in allpcs if p not in pcs_hit),
                               "rarest_program_counters (runs)": dict(sorted(pcs_hit.items(), key=lambda kv: kv[1])[:12]),
                               "edges_taken": len(edges), "rarest_edges (runs)": dict(sorted(edges.items(), key=lambda kv: kv[1])[:25])}
+    ctx.cov["call_arities"] = stats.get("arity")
     ctx.cov["faults_fired"] = {"failing creation of a pool worker (pthread_create -> EAGAIN, request option cf)": stats["spawn_failure"]}
     ctx.log(f"model coverage: {ctx.cov['branch_hits']['reached_by_a_replayed_run']}/{len(allpcs)} program counters, {len(edges)} edges; unreached {ctx.cov['branch_hits']['unreached']}; spawn failures {stats['spawn_failure']}")
     ctx.cov["model_exploration"] = xres
@@ -842,7 +851,32 @@ def report(ctx, exe, repaired, stats, found, diffs, distinct, samples, xres, wre
         break
 
 
-OPEN_STATEMENTS = []      # join_eventually is proved outright (Props.lean) since round 2 / fix 0005
+ARITY_CHECKS = 26       # value checks printed by one `arity` request of the harness (every start() overload of Future.hpp + flag queries)
+
+
+def arity_stream(ctx, exe, stats):
+    """every start() overload of Future<A> / Future<void> (Call.hpp Args0..5, Member Args0..4) once on the real pool under random
+    schedules; by-value capture (the caller overwrites its variables right after start()) and the converted result are checked by the harness"""
+    seeds = [ctx.rng.randrange(1, 10 ** 6) for _ in range(6 if ctx.tier == "quick" else 40)]
+    reqs = [f"arity q={q} pol={pol} seed={sd}" for sd in seeds for q, pol in ((2, "rand"), (1, "np"))]
+    traces, err = run_requests(exe, reqs)
+    ok = 0
+    for rq, tr in zip(reqs, traces):
+        n = sum(1 for l in tr if l.startswith("E 0 arity ") and " ok " in l)
+        xs = [l for l in tr if l.startswith("X ")]
+        v = next((l.split()[1] for l in tr if l.startswith("V ")), "none")
+        leak = not any(l.startswith("E 0 arity-total") and l.endswith("live=0") for l in tr)
+        if n == ARITY_CHECKS and not xs and v == "DONE" and tr[-1] == "end 0" and not leak:
+            ok += 1
+        else:
+            ctx.violation(f"Call.hpp / Future.hpp start() overloads: {n}/{ARITY_CHECKS} value checks passed, verdict {v}, {xs[:2]}",
+                          rq + "\n# " + " ; ".join(xs[:3] + [tr[-1]]) + "\n", signature="call-arity:" + (xs[0].split()[1] if xs else v))
+            break
+    stats["arity"] = {"requests": len(reqs), "passed": ok, "value_checks_per_request": ARITY_CHECKS}
+
+
+OPEN_STATEMENTS = ["PropsSpawnFail.lean: tail of ~ThreadPool after its join loop passed a never-started context (replayed, not proved); positive liveness with refused thread creations",
+                   "PropsCall.lean: Call.hpp arities other than Args2 are exercised on the real code only (harness request `arity`)"]      # join_eventually is proved outright (Props.lean) since round 2 / fix 0005
 
 
 def replay(ctx, path):
